@@ -162,9 +162,17 @@ Proof.
     rewrite IH by exact Ha. cbn [rev]. rewrite <- app_assoc. reflexivity.
 Qed.
 (* processing a text line by line from a given state *)
-Definition run (T:tables) (st:lstate) (s:text) : lstate := fold_left (load_line T) (split_nl s []) st.
+Definition run_gen (vals:vtype -> text -> list dvalue) (T:tables) (st:lstate) (s:text) : lstate :=
+  fold_left (load_line_gen vals T) (split_nl s []) st.
+Lemma run_gen_line vals T st a rest : no_nl a = true -> run_gen vals T st (a ++ 10 :: rest) = run_gen vals T (load_line_gen vals T st a) rest.
+Proof. intro H. unfold run_gen. rewrite split_nl_line by exact H. reflexivity. Qed.
+Lemma load_line_gen_empty vals T st : load_line_gen vals T st [] = st.
+Proof. reflexivity. Qed.
+Lemma run_gen_nil vals T st : run_gen vals T st [] = st.
+Proof. reflexivity. Qed.
+Definition run : tables -> lstate -> text -> lstate := run_gen legacy_values.
 Lemma run_line T st a rest : no_nl a = true -> run T st (a ++ 10 :: rest) = run T (load_line T st a) rest.
-Proof. intro H. unfold run. rewrite split_nl_line by exact H. reflexivity. Qed.
+Proof. apply run_gen_line. Qed.
 Lemma load_line_empty T st : load_line T st [] = st.
 Proof. reflexivity. Qed.
 Lemma run_nil T st : run T st [] = st.
@@ -195,13 +203,15 @@ Proof. intro H. unfold print_Z. replace (z <? 0) with false by lia. apply dec_he
 Lemma strtok_skip dl c s : dl c = true -> strtok dl (c :: s) = strtok dl s.
 Proof. intro H. unfold strtok. cbn [skipb]. rewrite H. reflexivity. Qed.
 
+Lemma load_line_gen_comment vals T st x : load_line_gen vals T st (35 :: x) = st.
+Proof. reflexivity. Qed.
 Lemma load_line_comment T st x : load_line T st (35 :: x) = st.
 Proof. reflexivity. Qed.
 
-Lemma load_line_edition T st ed : 0 <= ed < 2 ^ 31 ->
-  load_line T st (s_BUFR_EDITION_eq ++ print_Z ed) = mkL ed (l_seq st).
+Lemma load_line_gen_edition vals T st ed : 0 <= ed < 2 ^ 31 ->
+  load_line_gen vals T st (s_BUFR_EDITION_eq ++ print_Z ed) = mkL ed (l_seq st).
 Proof.
-  intro Hed. unfold load_line.
+  intro Hed. unfold load_line_gen.
   rewrite cut0_clean.
   2:{ unfold nonzero. rewrite allb_app. fold (nonzero (print_Z ed)). rewrite print_Z_nonzero. reflexivity. }
   unfold s_BUFR_EDITION_eq. cbn [app]. change ((66 =? 35) || (66 =? 42)) with false. cbv iota.
@@ -216,32 +226,30 @@ Proof.
   rewrite strtok_clean_end by (apply print_Z_nonempty || apply print_Z_cleanE).
   rewrite atoi_print_Z by lia. reflexivity.
 Qed.
+Lemma load_line_edition T st ed : 0 <= ed < 2 ^ 31 ->
+  load_line T st (s_BUFR_EDITION_eq ++ print_Z ed) = mkL ed (l_seq st).
+Proof. apply load_line_gen_edition. Qed.
 
 (* a line that starts with a digit is neither a comment nor a directive: it is read as a descriptor line *)
-Definition item_line (T:tables) (st:lstate) (line:text) : lstate :=
+Definition item_line_gen (vals:vtype -> text -> list dvalue) (T:tables) (st:lstate) (line:text) : lstate :=
   match strtok dl_sp_tab_nl_comma_eq line with
   | None => st
   | Some (tok, r) =>
     let d := atoi tok in
     let ty := vtype_of T d in
-    let vals :=
+    let vs :=
       match strtok dl_sp_tab_nl_comma_eq r with
-      | Some (k, r2) =>
-          if text_eqb k s_VALUE then
-            match strtok dl_tab_nl_comma_eq r2 with
-            | Some (v1, r3) => parse_val ty v1 :: map (parse_val ty) (tokens dl_tab_nl_comma r3 [])
-            | None => []
-            end
-          else []
+      | Some (k, r2) => if text_eqb k s_VALUE then vals ty r2 else []
       | None => []
       end in
-    mkL (l_ed st) (mkItem d vals :: l_seq st)
+    mkL (l_ed st) (mkItem d vs :: l_seq st)
   end.
+Definition item_line : tables -> lstate -> text -> lstate := item_line_gen legacy_values.
 
-Lemma load_line_digit T st c t : isdigit c = true -> nonzero (c :: t) = true ->
-  load_line T st (c :: t) = item_line T st (c :: t).
+Lemma load_line_gen_digit vals T st c t : isdigit c = true -> nonzero (c :: t) = true ->
+  load_line_gen vals T st (c :: t) = item_line_gen vals T st (c :: t).
 Proof.
-  intros Hc Hz. unfold load_line. rewrite cut0_clean by exact Hz.
+  intros Hc Hz. unfold load_line_gen. rewrite cut0_clean by exact Hz.
   assert ((c =? 35) || (c =? 42) = false) as -> by (unfold isdigit in Hc; lia).
   assert (H1 : starts s_LOCAL_TABLEB (c :: t) = false)
     by (unfold s_LOCAL_TABLEB; cbn [starts]; assert (76 =? c = false) as -> by (unfold isdigit in Hc; lia); reflexivity).
@@ -255,17 +263,23 @@ Proof.
     by (unfold s_BUFR_EDITION; cbn [starts]; assert (66 =? c = false) as -> by (unfold isdigit in Hc; lia); reflexivity).
   rewrite H1, H2, H3, H4, H5. reflexivity.
 Qed.
+Lemma load_line_digit T st c t : isdigit c = true -> nonzero (c :: t) = true ->
+  load_line T st (c :: t) = item_line T st (c :: t).
+Proof. apply load_line_gen_digit. Qed.
 
 (* "<descriptor>" *)
-Lemma load_line_desc T st d : 0 <= d < 2 ^ 31 ->
-  load_line T st (print_Z d) = mkL (l_ed st) (mkItem d [] :: l_seq st).
+Lemma load_line_gen_desc vals T st d : 0 <= d < 2 ^ 31 ->
+  load_line_gen vals T st (print_Z d) = mkL (l_ed st) (mkItem d [] :: l_seq st).
 Proof.
   intro Hd. destruct (print_Z_head d) as (c & t & E & Hc); [lia|].
   pose proof (print_Z_nonzero d) as Hz. pose proof (print_Z_clean1 d) as Hcl. pose proof (print_Z_nonempty d) as Hne.
   pose proof (atoi_print_Z d) as Ha.
-  rewrite E in *. rewrite load_line_digit by assumption.
-  unfold item_line. rewrite strtok_clean_end by assumption. rewrite Ha by lia. reflexivity.
+  rewrite E in *. rewrite load_line_gen_digit by assumption.
+  unfold item_line_gen. rewrite strtok_clean_end by assumption. rewrite Ha by lia. reflexivity.
 Qed.
+Lemma load_line_desc T st d : 0 <= d < 2 ^ 31 ->
+  load_line T st (print_Z d) = mkL (l_ed st) (mkItem d [] :: l_seq st).
+Proof. apply load_line_gen_desc. Qed.
 
 (* "<descriptor>,VALUE=<token>" *)
 Lemma load_line_desc_value T st d txt : 0 <= d < 2 ^ 31 -> txt <> [] -> allb tokchar txt = true ->
@@ -281,12 +295,12 @@ Proof.
   { unfold nonzero. rewrite !allb_app. fold (nonzero (print_Z d)). fold (nonzero txt). rewrite print_Z_nonzero, Hnz. reflexivity. }
   pose proof (print_Z_clean1 d) as Hcl. pose proof (print_Z_nonempty d) as Hpn. pose proof (atoi_print_Z d) as Ha.
   revert Hz. rewrite E in *. cbn [app]. intro Hz. rewrite load_line_digit by assumption.
-  unfold item_line. change (c :: t ++ s_cVALUE ++ txt) with ((c :: t) ++ 44 :: (s_VALUE ++ 61 :: txt)).
+  unfold item_line, item_line_gen. change (c :: t ++ s_cVALUE ++ txt) with ((c :: t) ++ 44 :: (s_VALUE ++ 61 :: txt)).
   rewrite strtok_clean_delim by (assumption || reflexivity).
   rewrite Ha by lia.
   rewrite strtok_clean_delim by (discriminate || reflexivity).
   change (text_eqb s_VALUE s_VALUE) with true. cbv iota.
-  rewrite strtok_clean_end by assumption. reflexivity.
+  unfold legacy_values. rewrite strtok_clean_end by assumption. reflexivity.
 Qed.
 
 (* ------------------------------------------------------------------ the printed form of a FLT64 is one clean token *)
@@ -434,7 +448,7 @@ Proof. unfold save_text, s_hash. rewrite <- !app_assoc. reflexivity. Qed.
 Theorem parse_save T t : 0 <= t_ed t < 2 ^ 31 -> Forall (fun it => 0 <= i_desc it < 2 ^ 31) (t_items t) -> carried T t ->
   parse_lines T (save t) = t.
 Proof.
-  intros Hed Hd Hc. unfold parse_lines, save, load_lines. fold (run T (mkL 4 []) (save_text t)).
+  intros Hed Hd Hc. unfold parse_lines, parse_lines_gen, save, load_lines_gen. fold (run_gen legacy_values T (mkL 4 []) (save_text t)). fold (run T (mkL 4 []) (save_text t)).
   rewrite save_text_shape.
   rewrite run_line.
   2:{ unfold no_nl. rewrite !allb_app. fold (no_nl (print_Z (Z.of_nat (length (t_items t))))). rewrite print_Z_no_nl. reflexivity. }
@@ -457,7 +471,7 @@ Qed.
 
 Theorem save_load_id fuel T t : wf_template fuel T t -> carried T t -> load fuel T (save t) = Ok t.
 Proof.
-  intros [Hf Hed] Hc. unfold load. rewrite parse_save; [rewrite Hf; reflexivity | exact Hed | | exact Hc].
+  intros [Hf Hed] Hc. unfold load, load_gen. fold (parse_lines T (save t)). rewrite parse_save; [rewrite Hf; reflexivity | exact Hed | | exact Hc].
   apply finalize_ok_range in Hf. unfold descs in Hf. rewrite Forall_map in Hf. exact Hf.
 Qed.
 Corollary save_load_text_id fuel T t : wf_template fuel T t -> carried T t -> load_text fuel T (save_text t) = Ok t.
@@ -601,22 +615,32 @@ Proof.
   rewrite (all_known_rejects_unknown T d U l 0); [apply andb_false_r|]. eapply sexpand_keeps_unknown; eassumption.
 Qed.
 
-(* whatever the lines are: if what they name contains an unknown descriptor, or its replication is ill formed, load refuses *)
-Theorem load_rejects_unknown fuel T lines d :
-  unknown_desc T d -> In d (descs (parse_lines T lines)) -> load fuel T lines = Err Reject.
+(* whatever the lines are, and however the defaults are read: if what they name contains an unknown descriptor, or its
+   replication is ill formed, load refuses *)
+Theorem load_gen_rejects_unknown vals fuel T lines d :
+  unknown_desc T d -> In d (descs (parse_lines_gen vals T lines)) -> load_gen vals fuel T lines = Err Reject.
 Proof.
-  intros U Hin. unfold load, finalize_ok. rewrite (accepts_rejects_unknown _ _ _ _ U Hin), andb_false_r. reflexivity.
+  intros U Hin. unfold load_gen, finalize_ok. rewrite (accepts_rejects_unknown _ _ _ _ U Hin), andb_false_r. reflexivity.
 Qed.
-Theorem load_rejects_ill_nested fuel T lines :
-  well_nested (descs (parse_lines T lines)) = false -> load fuel T lines = Err Reject.
-Proof. intro H. unfold load, finalize_ok, accepts. rewrite H. cbn [andb]. rewrite andb_false_r. reflexivity. Qed.
-Theorem load_rejects_not_a_descriptor fuel T lines d :
-  is_descriptor d = false -> In d (descs (parse_lines T lines)) -> load fuel T lines = Err Reject.
+Theorem load_gen_rejects_ill_nested vals fuel T lines :
+  well_nested (descs (parse_lines_gen vals T lines)) = false -> load_gen vals fuel T lines = Err Reject.
+Proof. intro H. unfold load_gen, finalize_ok, accepts. rewrite H. cbn [andb]. rewrite andb_false_r. reflexivity. Qed.
+Theorem load_gen_rejects_not_a_descriptor vals fuel T lines d :
+  is_descriptor d = false -> In d (descs (parse_lines_gen vals T lines)) -> load_gen vals fuel T lines = Err Reject.
 Proof.
-  intros Hd Hin. unfold load, finalize_ok.
-  assert (forallb is_descriptor (descs (parse_lines T lines)) = false) as ->; [|reflexivity].
+  intros Hd Hin. unfold load_gen, finalize_ok.
+  assert (forallb is_descriptor (descs (parse_lines_gen vals T lines)) = false) as ->; [|reflexivity].
   apply not_true_is_false. intro H. rewrite forallb_forall in H. rewrite (H _ Hin) in Hd. discriminate.
 Qed.
+Theorem load_rejects_unknown fuel T lines d :
+  unknown_desc T d -> In d (descs (parse_lines T lines)) -> load fuel T lines = Err Reject.
+Proof. apply load_gen_rejects_unknown. Qed.
+Theorem load_rejects_ill_nested fuel T lines :
+  well_nested (descs (parse_lines T lines)) = false -> load fuel T lines = Err Reject.
+Proof. apply load_gen_rejects_ill_nested. Qed.
+Theorem load_rejects_not_a_descriptor fuel T lines d :
+  is_descriptor d = false -> In d (descs (parse_lines T lines)) -> load fuel T lines = Err Reject.
+Proof. apply load_gen_rejects_not_a_descriptor. Qed.
 (* in terms of texts: the text written for a list of descriptors (no defaults) that names an unknown one is refused *)
 Definition plain (ed:Z) (ds:list Z) : template := mkTmpl ed (map (fun d => mkItem d []) ds).
 Lemma descs_plain ed ds : descs (plain ed ds) = ds.
@@ -660,12 +684,12 @@ Proof.
   { unfold nonzero. rewrite !allb_app. fold (nonzero (print_Z d)). rewrite print_Z_nonzero. cbn. exact Hx. }
   pose proof (print_Z_clean1 d) as Hcl. pose proof (print_Z_nonempty d) as Hpn. pose proof (atoi_print_Z d) as Ha.
   revert Hz. rewrite E in *. cbn [app]. intro Hz. rewrite load_line_digit by assumption.
-  unfold item_line. change (c :: t ++ s_cVALUE ++ 34 :: x) with ((c :: t) ++ 44 :: (s_VALUE ++ 61 :: 34 :: x)).
+  unfold item_line, item_line_gen. change (c :: t ++ s_cVALUE ++ 34 :: x) with ((c :: t) ++ 44 :: (s_VALUE ++ 61 :: 34 :: x)).
   rewrite strtok_clean_delim by (assumption || reflexivity).
   rewrite Ha by lia.
   rewrite strtok_clean_delim by (discriminate || reflexivity).
   change (text_eqb s_VALUE s_VALUE) with true. cbv iota.
-  unfold strtok at 1. cbn [skipb]. change (dl_tab_nl_comma_eq 34) with false. cbv iota.
+  unfold legacy_values. unfold strtok at 1. cbn [skipb]. change (dl_tab_nl_comma_eq 34) with false. cbv iota.
   cbn [spand]. change (dl_tab_nl_comma_eq 34) with false. cbv iota.
   destruct (spand dl_tab_nl_comma_eq x) as [a b].
   rewrite Hty. cbn [parse_val]. unfold set_string. cbn [cut0]. change (34 =? 0) with false. cbv iota.
